@@ -20,10 +20,11 @@ Definition digits_value (ds : list Z) : Z := fold_left (fun a d => a * 10 + d) d
 
 Definition take_sign (s : list Z) : bool * list Z :=
   match s with
-  | 45 :: r => (true, r)
-  | 43 :: r => (false, r)
-  | _ => (false, s)
+  | c :: r => if c =? 45 then (true, r) else if c =? 43 then (false, r) else (false, s)
+  | [] => (false, s)
   end.
+
+Definition both_empty (a b : list Z) : bool := match a, b with [], [] => true | _, _ => false end.
 
 Inductive lit :=
 | LitEmpty                                   (* the empty string *)
@@ -38,11 +39,11 @@ Definition scan (s : list Z) : lit :=
     let '(ip, s2) := take_digits s1 in
     let '(has_dot, fp, s3) :=
       match s2 with
-      | 46 :: r => let '(f, r') := take_digits r in (true, f, r')
-      | _ => (false, [], s2)
+      | c :: r => if c =? 46 then let '(f, r') := take_digits r in (true, f, r') else (false, [], s2)
+      | [] => (false, [], s2)
       end in
     (* digits[.digits*]  or  .digits *)
-    if match ip, fp with [], [] => true | _, _ => false end then LitBad else
+    if both_empty ip fp then LitBad else
     match s3 with
     | [] => LitOk neg ip fp 0 0
     | c :: r =>
